@@ -70,9 +70,33 @@ def nop_steps(ctx, code):
 
 
 # ---------------------------------------------------------------- (B)
+# statements whose parsing looks ahead at the next symbol (optional size argument / value forms): a NOPn (or forked
+# name) right after them must still start a new statement
+PRE = ('OP_PUSH1 x0102', 'OP_PUSH2 x0102', 'OP_PUSH x0102', 'OP_PUSH d7', 'OP_PUSH0 d7', 'OP_PUSH1 d2 x0102', 'OP_PUSH2 d2 x0102',
+       'OP_PUSH s"ab"', 'push1 x0102', 'push2 x0102', 'OP_TRUE', 'OP_DIV_INT d2', 'OP_SWAP d0 d1', '@= v [ d1 ]', '@v')
+
+
 def nop_compile(ctx, code):
     n = 0
     name = 'NOP%d' % code
+    for pre in PRE:
+        try:
+            pre_b = P_.compile_script(pre)
+        except BaseException as e:
+            raise AssertionError('context %r does not compile: %r' % (pre, e))
+        for cnt, operand in ((0, 'd0'), (1, 'd1'), (128, 'd-128'), (255, 'xff')):
+            for nm in (name, name.lower()):
+                n += 1
+                src = '%s %s %s OP_FALSE' % (pre, nm, operand)
+                try:
+                    got = P_.compile_script(src)
+                except BaseException as e:
+                    ctx.violation({'block': 'B', 'clause': 'NOPn compiles', 'after': pre.split(' ')[0]}, f'{src!r}: {e!r}')
+                    continue
+                ctx.ran()
+                if got != pre_b + bytes([code, cnt]) + b'\x00':
+                    ctx.violation({'block': 'B', 'clause': 'NOPn compiles to [n, c]', 'after': pre.split(' ')[0]},
+                                  f'{src!r}: {got.hex()} want {(pre_b + bytes([code, cnt]) + bytes(1)).hex()}')
     for cnt in range(256):
         want = bytes([code, cnt])
         forms = ['%s x%02x' % (name, cnt), '%s x%02X' % (name.lower(), cnt)]
@@ -227,6 +251,20 @@ def fork_case(ctx, case):
                 if got != plain_src[cnt]:
                     ctx.violation({'block': 'C', 'clause': 'both VMs compile to identical bytes'},
                                   f'{nm} d{cnt}: {got.hex()} vs plain {plain_src[cnt].hex()}')
+            # ... after every statement form that looks ahead at the next symbol
+            for nm in [name, name.lower()] + aliases:
+                for pre in PRE:
+                    n += 1
+                    try:
+                        want_b = P_.compile_script(pre) + bytes([code, cnt]) + b'\x00'
+                        got = P_.compile_script('%s %s d%d OP_FALSE' % (pre, nm, cnt))
+                    except BaseException as e:
+                        ctx.violation({'block': 'C', 'clause': 'fork op reachable by its name and aliases', 'after': pre.split(' ')[0]},
+                                      f'{pre} {nm}: {e!r}')
+                        continue
+                    if got != want_b:
+                        ctx.violation({'block': 'C', 'clause': 'both VMs compile to identical bytes', 'after': pre.split(' ')[0]},
+                                      f'{pre} {nm} d{cnt}: {got.hex()} vs {want_b.hex()}')
             # ... and inside every block body
             for nm in [name.lower()] + [a.lower() for a in aliases]:
                 for kind, src in BODY_SRC:
